@@ -325,7 +325,8 @@ def sem_validate(ctx, acc, name, trace, kinds, timeout=3000, consts=''):
     if ncompiled > 0 and nfiles == 0 and 'Static = TRUE' not in consts:
         # vacuity guard: programs were compiled but not one of them was executed on a file
         raise ctx.t.ToolError('stage %s: %d programs compiled, none executed (all held to be of unspecified meaning?)' % (name, ncompiled))
-    acc.add_stage(name, st, len(recs), samples, {'programs_compiled': ncompiled, 'file_evaluations': nfiles})
+    nstatic = sum(1 for v in verdicts if v.get('nfiles', 0) == 0 and recs[v['idx'] - 1]['c']['st'] == 'ok')
+    acc.add_stage(name, st, len(recs), samples, {'programs_compiled': ncompiled, 'file_evaluations': nfiles, 'programs_checked_statically_only': nstatic})
     acc.programs = getattr(acc, 'programs', 0) + ncompiled
     acc.file_evals = getattr(acc, 'file_evals', 0) + nfiles
     acc.distinct += len(set(json.dumps(r['t'], sort_keys=True) for r in recs))
